@@ -9,9 +9,10 @@ pub mod c12;
 pub mod c13;
 pub mod c14;
 pub mod c15;
+pub mod c18;
 pub mod proof;
 pub mod serde;
 
 pub fn all() -> Vec<Box<dyn Prop>> {
-    vec![Box::new(proof::C01), Box::new(proof::C02), Box::new(c03::C03), Box::new(c04::C04), Box::new(c06::C06), Box::new(c07::C07), Box::new(c09::C09), Box::new(serde::C10), Box::new(serde::C19), Box::new(c11::C11), Box::new(c12::C12), Box::new(c13::C13), Box::new(c14::C14), Box::new(c15::C15)]
+    vec![Box::new(proof::C01), Box::new(proof::C02), Box::new(c03::C03), Box::new(c04::C04), Box::new(c06::C06), Box::new(c07::C07), Box::new(c09::C09), Box::new(serde::C10), Box::new(serde::C19), Box::new(c11::C11), Box::new(c12::C12), Box::new(c13::C13), Box::new(c14::C14), Box::new(c15::C15), Box::new(c18::C18)]
 }
